@@ -608,6 +608,30 @@ func (g *Graph) eval(e ast.Expr, v Val) int {
 			return tvF
 		}
 	}
+	// a declared function compared with nil (`f != nil` after a function was substituted for a parameter)
+	if b, ok := e.(*ast.BinaryExpr); ok && (b.Op == token.EQL || b.Op == token.NEQ) {
+		x, y := b.X, b.Y
+		if g.isNilLit(x) {
+			x, y = y, x
+		}
+		if g.isNilLit(y) {
+			var o types.Object
+			switch t := ast.Unparen(x).(type) {
+			case *ast.Ident:
+				o = g.Info.Uses[t]
+			case *ast.SelectorExpr:
+				if sel := g.Info.Selections[t]; sel == nil || sel.Kind() == types.MethodExpr {
+					o = g.Info.Uses[t.Sel]
+				}
+			}
+			if _, isFn := o.(*types.Func); isFn {
+				if b.Op == token.NEQ {
+					return tvT
+				}
+				return tvF
+			}
+		}
+	}
 	switch t := e.(type) {
 	case *ast.UnaryExpr:
 		if t.Op == token.NOT {
